@@ -87,7 +87,7 @@ Definition parse_uid32 (s : list N) : N :=
   end.
 
 (* strings.HasPrefix *)
-Fixpoint has_prefix (s p : list N) : bool :=
+Fixpoint has_prefix (s p : list N) {struct p} : bool :=
   match p, s with
   | [], _ => true
   | x :: p', y :: s' => (x =? y) && has_prefix s' p'
